@@ -31,6 +31,11 @@ Why(r) ==
          \cup (IF r.inflight > 0 THEN {"returned_while_its_run_was_in_progress_cancelled_at_" \o r.point} ELSE {})
          \cup (IF r.late > 0 THEN {"response_writer_used_after_return_cancelled_at_" \o r.point} ELSE {})
          \cup (IF r.returned /\ r.outcome \notin Outcomes THEN {"outcome_" \o r.outcome} ELSE {})
+    \* a resolver that panics fails its own request with an error, wherever it sits (the process survives)
+    [] r.kind = "panic" ->
+         (IF r.name = "no_panic_control" THEN (IF r.outcome # "ok" THEN {"control_query_failed"} ELSE {})
+          ELSE IF r.outcome = "crash" THEN {"resolver_panic_killed_the_server_at_" \o r.name}
+          ELSE IF r.outcome # "error" THEN {"panicking_resolver_did_not_fail_its_request_at_" \o r.name} ELSE {})
     [] r.kind = "construct" ->
          (IF r.outcome \notin Outcomes THEN {"outcome_" \o r.outcome} ELSE {})
          \cup (IF r.name \in MustBeRefused /\ r.outcome = "ok" THEN {"accepted_" \o r.name} ELSE {})
